@@ -99,6 +99,19 @@ func TestSizeSweep(t *testing.T) {
 			n++
 		}
 	}
+	// projections that collect nothing, at every size and beyond the sweep (a result buffer sized for
+	// the input and trimmed, or dropped, when it stays empty)
+	big := append(append([]int{}, sweepSizes()...), 2047, 2048, 2049, 4096, 4097, 10000)
+	for si, size := range big {
+		if si%nshards != shard {
+			continue
+		}
+		doc := sizeDoc(size)
+		for _, e := range []string{"nums[?@ > `1000`]", "objs[?n > `100`]", "objs[*].nosuch", "nested[*].x", "nums[?`false`]", "strs[?@ == 'nope']", "nulls[?@ == `-1`]", "objs[?nosuch].n", "{hits: nums[?@ > `1000`]}", "[objs[*].nosuch, nums[?`false`]]", "objs[].nosuch", "nums[?@ > `1000`] | length(@)", "to_string(objs[*].nosuch)", "nums[99999:]", "objs[*].p.q.r"} {
+			run(t, Case{Property: prop, Kind: kind, Expr: e, Doc: doc, Extra: map[string]interface{}{"cell": "size-empty"}})
+			n++
+		}
+	}
 	st := statsFor(prop)
 	st.mu.Lock()
 	st.Exhaustive[prop+".size-sweep"] = fmt.Sprintf("%d expressions (array/string functions, projections, slices, re-reads, error cases) on documents whose arrays, object and string have every size 0..72 and the neighbourhoods of 96..1025 (shard %d/%d: %d cases)", len(sizeExprs), shard, nshards, n)
